@@ -272,18 +272,20 @@ func VerifC14_sharedrow() {
 func VerifC14_between() {
 	key := &vfUserKey{11}
 	t := tabular.New()
-	t.AddHeaders("h1", "h2")
+	// (one header cell may be empty: JSON refuses such a table - and must leave it as it is)
+	h2 := []interface{}{"h2", ""}[vfChoice("second-header", 2)]
+	t.AddHeaders("h1", h2)
 	t.AddRowItems("a", "b")
 	t.AddSeparator()
 	t.AddRowItems("c", "d")
 	t.AddRowItems("e")
-	fmts := []int{0, 2, 3, 4 + 3, 4 + 2} // csv, markdown, html, text none (kept object), text utf8-heavy (fresh)
+	fmts := []int{0, 2, 3, 4 + 3, 4 + 2, 1} // csv, markdown, html, text none (kept object), text utf8-heavy (fresh), json
 	f1 := fmts[vfChoice("first", len(fmts))]
 	f2 := fmts[vfChoice("second", len(fmts))]
 	rs := &vfRenderers{t: t}
 	before := vfSnapshot(t, key)
 	out1, err1 := rs.render(f1)
-	vfAssert(err1 == nil, "render-ok")
+	vfAssert(vfOr(err1 == nil, f1 == 1), "render-ok")
 	vfSameSnap(before, vfSnapshot(t, key))
 	switch vfChoice("between", 3) {
 	case 1:
@@ -295,10 +297,10 @@ func VerifC14_between() {
 	}
 	mid := vfSnapshot(t, key)
 	_, err2 := rs.render(f2)
-	vfAssert(err2 == nil, "render-ok")
+	vfAssert(vfOr(err2 == nil, f2 == 1), "render-ok")
 	vfSameSnap(mid, vfSnapshot(t, key))
 	again, err3 := rs.render(f1)
-	vfAssert(vfAnd(err3 == nil, again == out1), "same-bytes-as-first-render")
+	vfAssert(vfAnd((err3 == nil) == (err1 == nil), again == out1), "same-bytes-as-first-render")
 	vfSameSnap(mid, vfSnapshot(t, key))
 	vfObserveStr("out", out1)
 }
